@@ -308,8 +308,10 @@ func (tp *TableParser) parseCellParagraph(p paragraphXML) parsedParagraph {
 	// Extract text from runs
 	var textParts []string
 	for _, run := range p.Runs {
-		for _, t := range run.Text {
-			textParts = append(textParts, t.Value)
+		for _, child := range run.Content {
+			if child.XMLName.Local == "t" {
+				textParts = append(textParts, child.Value)
+			}
 		}
 	}
 	parsed.Text = strings.Join(textParts, "")
